@@ -25,6 +25,9 @@ def run(tier, seed):
         # 131071/131072 = 1 - 2^-17: a discount factor that an approximate comparison with 1 would treat as undiscounted
         g = rng.choice(["1", "1", "1/2", "3/4", "9/10"]) if i % 6 != 1 else "131071/131072"
         period = rng.randint(2, 7) if g == "1" else rng.randint(1, 7)
+        if i in (2, 3):
+            # forced: the smallest period with a discount factor below one (the documented measure still divides by gamma^(n-1))
+            g, period = ("1/2", "3/4")[i - 2], 1
         kind = rng.choice(["periodic", "unichain", "unichain", "random"])
         S = rng.randint(max(2, period if kind == "periodic" else 2), 10 if tier == "quick" else 20)
         spec = gen.gen_spec(rng, S=S, kind=kind, denom=rng.choice([2, 4]), R=rng.choice([1, 5]), init=(i % 4 == 0))
@@ -47,6 +50,9 @@ def run(tier, seed):
             # the discounted measure divides by gamma^(iteration-1): float rounding is amplified by gamma^-(n-1); keep such runs short enough
             # for the decision to be determined by exact arithmetic (the amplified float noise stays far below every eps used)
             ks = rng.choice([[min(5 * (period + 1) + 3, 22)], [period, 1, min(2 * period + 3, 12)], [1, 1, 1, period + 1]])
+        if i in (2, 3):
+            new["eps"] = "1/1024"
+            ks = [1, 1, 1, 1, 1, 1, 2, 2, 8]          # one sweep per call at first: every decision and every logged measure is compared
         ops = jobs[i % W][0]
         ops.append({"op": "problem", "id": f"p{i}", "spec": {k: v for k, v in spec.items() if not k.startswith("_")}, "_tags": spec["_tags"]})
         ops.append(new)
